@@ -66,7 +66,7 @@ def scenario(ck, trial, tier):
                     for t in inc:
                         tv = spec.TxView(t)
                         fees += sum(head.utxo[(h, i)][0] for h, i, _ in tv.inputs) - sum(v for v, _ in tv.outputs)
-                    nn = tg.extend(head, txs=inc, fees=fees, dt=30)
+                    nn = tg.extend(head, txs=inc, fees=fees, dt=rng.choice([110, 130]))
                     byid[nn.id] = nn
                     blk, label, expect = nn.block, 'valid-extends-head', 'accept'
                 elif r < 0.45:
@@ -75,7 +75,7 @@ def scenario(ck, trial, tier):
                     cand = [x for x in byid.values() if x.id in known_ids and x not in hc and x.height >= par.height]
                     if cand and rng.random() < 0.6:
                         par = max(cand, key=lambda x: x.height)
-                    nn = tg.extend(par, txs=[], fees=0, dt=31)
+                    nn = tg.extend(par, txs=[], fees=0, dt=rng.choice([115, 125]))
                     byid[nn.id] = nn
                     blk, label, expect = nn.block, 'valid-on-fork', 'accept'
                 elif r < 0.55 and len(known_ids) > 1:
@@ -83,8 +83,8 @@ def scenario(ck, trial, tier):
                     blk, label, expect = old.block, 'duplicate', 'noop'
                 elif r < 0.62:
                     # orphan: child of a block the node never saw
-                    hidden = tg.extend(head, txs=[], fees=0, dt=29)
-                    child = tg.extend(hidden, txs=[], fees=0, dt=30)
+                    hidden = tg.extend(head, txs=[], fees=0, dt=119)
+                    child = tg.extend(hidden, txs=[], fees=0, dt=rng.choice([110, 130]))
                     tg.nodes.remove(hidden)
                     tg.nodes.remove(child)
                     blk, label, expect = child.block, 'orphan', 'reject'
@@ -197,7 +197,11 @@ def run(tier, seed):
             req, observed = scenario(ck, trial, tier)
         except Exception:
             import traceback
-            ck.disagree('scenario %d crashed: %s' % (trial, traceback.format_exc()[-500:]), {'trial': trial})
+            tb = traceback.format_exc()
+            if 'could not mine a block' in tb:
+                ck.count('generator-gave-up(difficulty)')
+                continue
+            ck.disagree('scenario %d crashed: %s' % (trial, tb[-500:]), {'trial': trial})
             continue
         reqs.append(req)
         obs.append(observed)
